@@ -646,6 +646,28 @@ func (x *fx) binop(i *ssa.BinOp) {
 				}
 			}
 		}
+		if isInterface(t) && isInterface(i.Y.Type()) {
+			// canonicalisation stability (C09): two values compared as interfaces must not
+			// hold numbers of a non-float64 type (7 and 7.0 are equal after a JSON round
+			// trip and unequal before it)
+			if root := x.rootContract(); root != nil && len(root.Canon) > 0 && !strings.Contains(x.tag, "fudge") {
+				_, n1 := i.X.(*ssa.Const)
+				_, n2 := i.Y.(*ssa.Const)
+				if !n1 && !n2 {
+					var kinds []Term
+					for _, v := range []Term{a, b} {
+						for _, k := range []types.BasicKind{types.Float32, types.Int64, types.Int32, types.Int} {
+							kinds = append(kinds, e.S.hasType(v, types.Typ[k]))
+						}
+					}
+					name := "canon-stable:" + x.describe(i.X) + "==" + x.describe(i.Y)
+					if x.tag != "" {
+						name += "@" + x.tag
+					}
+					e.oblig("canon-stable", name, root.Canon, x.curReach, not(or(kinds...)), x.pos(i.Pos()), "values compared as interfaces here hold no number of a non-float64 type (coerced before): otherwise persisting and reloading the value changes the outcome of the comparison")
+				}
+			}
+		}
 		if _, ok := t.Underlying().(*types.Slice); ok {
 			// only comparison with nil is legal
 			r = fmt.Sprintf("(= (sref %s) 0)", a)
